@@ -96,6 +96,11 @@ CheckCounters(r) ==
     /\ \A t \in Topics : ObsTotal(t) # Sum([p \in Peers |-> ObsPer(t, p)], Peers) =>
                             Viol("P_X04_b", "total-not-sum", t, "", "", ObsTotal(t), Sum([p \in Peers |-> ObsPer(t, p)], Peers))
     /\ \A i \in DOMAIN E.empty : Viol("P_X04_a", "topic-entry-without-groups", E.empty[i], "", "", 0, 0)
+    \* reported at the heartbeat that removes the last group of a topic
+    /\ \A i \in DOMAIN E.ctr :
+         LET t == E.ctr[i].t
+         IN  (E.a = "hb" /\ t \in Topics /\ (\E g \in Groups : S.g[t][g].live) /\ ~(\E g \in Groups : r.S.g[t][g].live)) =>
+                Viol("P_X04_a", "as-found-counter-entry-kept", t, "", "", E.ctr[i].total, 0)
 
 CheckDecision ==
     NewGroupRpc =>
@@ -148,14 +153,16 @@ Tags(r) ==
         \cup tag(E.a = "pub" /\ \E x \in r.sent : x.hasMsg /\ ~x.hasMeta, "send-msg-only")
         \cup tag(E.a = "pub" /\ \E p \in Keys(r.S.g[E.t][E.g]) : p \notin SeqSet(E.err) /\ ~\E x \in r.sent : x.p = p, "send-nothing")
         \cup tag(E.a = "pub" /\ S.c.sloppy /\ \E p \in Keys(r.S.g[E.t][E.g]) : <<p, E.t>> \notin S.req, "msg-stripped-for-non-requester")
-        \cup tag(E.a = "pub" /\ r.ret.k = "actions", "pub-action-error")
+        \cup tag(E.a = "pub" /\ r.ret.k = "actions", "pub-action-error") \cup tag(E.a = "pub" /\ Cardinality(r.ret.ps) >= 2, "pub-two-action-errors")
+        \cup tag(E.a = "pub" /\ r.ret.k = "actions" /\ r.sent # {}, "pub-action-error-others-sent")
         \cup tag(E.a = "pub" /\ G0.live /\ \E p \in Peers : G0.ps[p].hr /\ <<p, E.t>> \in S.req /\ \E x \in r.sent : x.p = p /\ x.hasMsg, "send-missing-parts")
         \cup tag(E.a = "pub" /\ \E p \in S.mesh[E.t] : ~G0.ps[p].has, "mesh-peer-initialised")
         \cup tag(NewGroupRpc /\ ObsDecision = "", "rpc-creates") \cup tag(NewGroupRpc /\ ObsDecision = "peer-limit", "rpc-peer-limit")
         \cup tag(NewGroupRpc /\ ObsDecision = "total-limit", "rpc-total-limit")
         \cup tag(E.a = "rpc" /\ G0.live /\ Decision(S, E.t, E.p) # "", "rpc-existing-at-limit")
         \cup tag(E.a = "rpc" /\ G0.live /\ G0.by = NoPeer, "rpc-on-local-group")
-        \cup tag(E.a = "rpc" /\ E.apperr, "rpc-app-error") \cup tag(E.a = "rpc" /\ ~E.hasMeta /\ ObsDecision = "", "rpc-ignored-by-app")
+        \cup tag(E.a = "rpc" /\ E.apperr /\ r.ret.k = "app" /\ ~G0.live, "rpc-app-error-new-group")
+        \cup tag(E.a = "rpc" /\ E.apperr /\ r.ret.k = "app" /\ G0.live, "rpc-app-error-existing-group") \cup tag(E.a = "rpc" /\ ~E.hasMeta /\ ObsDecision = "", "rpc-ignored-by-app")
         \cup tag(E.a = "rpc" /\ G0.live /\ G0.ps[E.p].hr /\ E.hasMeta /\ ~(SeqSet(E.parts) \subseteq G0.ps[E.p].recvd), "metadata-merged")
         \cup tag(E.a = "hb" /\ \E x \in r.gh.del : x.age = S.c.ttl /\ ~x.empty, "expire-ttl")
         \cup tag(E.a = "hb" /\ \E x \in r.gh.del : x.empty /\ x.age < S.c.ttl, "expire-empty")
@@ -168,6 +175,7 @@ Tags(r) ==
         \cup tag(E.a = "gossip" /\ \E g \in Groups : S.g[E.t][g].live /\ S.g[E.t][g].by # NoPeer, "gossip-skips-peer-initiated")
         \cup tag(E.a = "gossip" /\ \E g \in Groups : S.g[E.t][g].live /\ S.g[E.t][g].by = NoPeer /\ SeqSet(E.ps) \subseteq Keys(S.g[E.t][g]), "gossip-all-tracked")
         \cup tag(\E t \in Topics, p \in Peers : ObsPer(t, p) # Cardinality(Counted(r.S, t, p)), "count-drift-seen")
+        \cup tag(E.a = "hb" /\ \E t \in Topics : (\E g \in Groups : S.g[t][g].live) /\ ~(\E g \in Groups : r.S.g[t][g].live), "topic-dies")
 
 TStep == /\ E.e = "step"
          /\ LET r == After
